@@ -178,11 +178,12 @@ Proof. unfold balign_mat_src. repeat match goal with |- context [if ?c then _ el
 Lemma balign_all32_pos b : 0 < balign_all32 b. Proof. unfold balign_all32. lia. Qed.
 
 (* an event list built from the result of a wrapper *)
-Lemma ev_pos_of_kr (g : res kernel_run) ext al (s s0 s1 : hstate) :
+Lemma ev_pos_of_kr (g : res kernel_run) ext al (s s0 s1 s2 : hstate) :
   PosAl (kr_accs g) -> (forall b, 0 < al b) ->
   Forall ev_pos (snd (match g with
                       | Ok (Entered accs) => (s1, [mkEv ext al accs])
                       | Ok Skipped => (s0, [])
+                      | Panic _ => (s2, [])
                       | _ => (s, [])
                       end)).
 Proof.
